@@ -5,11 +5,14 @@ from __future__ import annotations
 from typing import Optional
 
 from .absint import Const, Interp, NodeV, NumV, StrV, Tmpl, Union, V
-from .relang import NFA, Lang, cs, erase_chars, strip_chars, suffix_after_first, SPACE
+from .relang import NFA, Lang, cs, erase_chars, lstrip_chars, rstrip_chars, strip_chars, suffix_after_first, SPACE
 
 
 class NoLang(Exception):
     pass
+
+
+NO_BLANK_SPELLINGS = False
 
 
 def node_nfa(I: Interp, n: NodeV) -> NFA:
@@ -21,7 +24,14 @@ def node_nfa(I: Interp, n: NodeV) -> NFA:
     if n.force_text is not None:
         return _strings_nfa([n.force_text])
     if k == "regex":
-        return Lang.nfa_from_regex(e.re.pattern, e.re.flags & ~32)  # drop re.UNICODE
+        nfa = Lang.nfa_from_regex(e.re.pattern, e.re.flags & ~32)  # drop re.UNICODE
+        if NO_BLANK_SPELLINGS:
+            # only the spellings of the terminal that contain no blank (used to tell a layout effect from a plain one)
+            nfa2 = NFA()
+            nfa2.trans = [[(m if m == 0 else (m & ~SPACE), t) for m, t in row if m == 0 or (m & ~SPACE)] for row in nfa.trans]
+            nfa2.start, nfa2.accept, nfa2.approx = nfa.start, set(nfa.accept), nfa.approx
+            return nfa2
+        return nfa
     lits = p.literal_set(e)
     if lits is not None:
         return _strings_nfa(sorted(lits))
@@ -261,6 +271,14 @@ def string_nfa(I: Interp, v: V) -> NFA:
             return erase_chars(b, cs([ord(args[0].value)]))
         if meth in ("strip", "lstrip", "rstrip") and not args:
             return strip_chars(b, SPACE)
+        if meth in ("strip", "lstrip", "rstrip") and len(args) == 1 and isinstance(args[0], Const) and isinstance(args[0].value, str):
+            # (the argument is a *set* of characters, not a prefix)
+            mask = cs([ord(c_) for c_ in args[0].value])
+            if meth in ("lstrip", "strip"):
+                b = lstrip_chars(b, mask)
+            if meth in ("rstrip", "strip"):
+                b = rstrip_chars(b, mask)
+            return b
         if meth in ("upper", "lower"):
             return b
         if meth == "rematch":
